@@ -186,6 +186,11 @@ def _run(ctx, algo_name, policy_name, n, never_ends=False):
         cap = bsize if E == 1 else bsize // E
         ls = int(ctx.rng.choice([1, 2, 4, cap, cap + 3, 2 * cap + 1]))
         batch = max(1, min(4, min(ls, cap)))
+        # a batch size larger than what warm-up plus one iteration stores is a legal constructor argument;
+        # what reset() stores does not depend on it (only reset() is judged then, no update is run)
+        big_batch = (i % 5 == 4)
+        if big_batch:
+            batch = (ls + S) * E + int(ctx.rng.integers(1, 9))
         info = {"algo": algo_name, "policy": policy_name, "E": E, "S": S, "buffer_size": bsize, "cap": cap,
                 "learning_starts": ls, "tl": tl, "i": i, "clock": never_ends}
         if algo_name == "DQN":
@@ -206,6 +211,9 @@ def _run(ctx, algo_name, policy_name, n, never_ends=False):
                 continue
             _judge(ctx, f"{algo_name}/{policy_name}/warmup", ref, tl, bufd, fs, pn, ls, cap, e, {**info, "phase": "reset"}, True)
         K = int(ctx.rng.integers(1, 4))
+        if big_batch:
+            ctx.monitor("warmups_judged_with_batch_larger_than_stored")
+            continue
         use_iteration = policy_name in ("MLPQPolicy", "MLPSACPolicy", "CountingQPolicy")
         if use_iteration:
             it = eqx.filter_jit(lambda s, k: algo.iteration(s, key=k, callback=cb))
